@@ -65,11 +65,11 @@ pub fn static_checks(gv: &GraphView, text: &str, acc: &mut Acc) {
 }
 
 fn static_part(ctx: &Ctx, per_shard: usize) -> Acc {
-    run_sharded(ctx.jobs, |shard| {
+    run_sharded(ctx, |shard| {
         let mut acc = Acc::new();
         for k in 0..per_shard {
             let mut rng = Rng::derive(ctx.seed, 3_500 + shard as u64, k as u64);
-            let prof = if rng.chance(0.7) { Profile::wild() } else { Profile::conforming() };
+            let prof = if rng.chance(0.7) { Profile::wild_static() } else { Profile::conforming() };
             let c = make_case(&mut rng, &prof, None, Some(&Style::plain()));
             acc.evaluations += 1;
             let Ok(a) = analyze(&c.printed.text) else {
@@ -95,11 +95,11 @@ pub fn run(ctx: &Ctx) -> i32 {
          distinct_nontrivial = distinct programs with >= 10 executed instructions and >= 1 checked transfer",
     );
     rep.assume("generated programs end every path in ret or an exit ecall and use no indirect jump other than ret (C03's premise)");
-    let per_shard = ctx.tier.pick(40, 2500);
+    let per_shard = ctx.tier.pick(120, 2500);
     let runs = ctx.tier.pick(4, 8);
     let acc = workload(ctx, Which::C03, 3_000, per_shard, runs);
     rep.acc.merge(acc);
-    let acc = static_part(ctx, ctx.tier.pick(40, 2500));
+    let acc = static_part(ctx, ctx.tier.pick(120, 2500));
     rep.acc.merge(acc);
     rep.require("transfers_checked", 10_000);
     rep.require("edges_checked", 10_000);
